@@ -338,6 +338,10 @@ pub fn worker(check: &dyn Check, tier: Tier, seed: u64, k: u64, n: u64, limit: O
         if env.leak_failures.len() > leaks_before && co.harness_error.is_none() {
             co.harness_error = Some(env.leak_failures[leaks_before..].join("; "));
         }
+        let gen_errs: Vec<String> = crate::world::GENERATOR_ERRORS.with(|g| std::mem::take(&mut *g.borrow_mut()));
+        if !gen_errs.is_empty() && co.harness_error.is_none() {
+            co.harness_error = Some(format!("workload generator: {}", gen_errs[0]));
+        }
         let mut replays: Vec<Value> = vec![];
         if co.harness_error.is_none() {
             for v in &co.violations {
